@@ -216,6 +216,7 @@ def explore_c15(rng, tier, res, deep=False):
     fresh_env_invalid(rng, tier, res, g)
     overlapping_applications(rng, tier, res)
     long_invalid_history(rng, tier, res)
+    api_glue(rng, tier, res, g)
 
 
 def overlapping_applications(rng, tier, res):
@@ -260,6 +261,57 @@ def overlapping_applications(rng, tier, res):
 ALMOST_VALID = ["$[?@.a == (@.b)]", "$[?(@.a) == 1]", "$[?(@.a) < (@.b)]", "$[?1 == (@.a)]", "$[?@.a == 1 && (@.b) != 2]", "$[?!@.a == 1]", "$[?@.a == !@.b]",
                 "$[?@.a >= (1)]", "$[?(@.a || @.b) == true]", "$[?@.a == 1 == 1]", "$[?@.a != (@.*)]", "$[?@.* == 1]", "$[?count(@.a)]", "$[?length(@.*) == 1]",
                 "$[?nope(@)]", "$[?true]", "$[?@.a == 01]", "$[9007199254740992]", "$[", "$.a b", "$ ", " $", "$[?@.a &&]", "$[?match(@.a)]", "$['\\x']", "$[1:2:3:4]"]
+
+
+def api_glue(rng, tier, res, g):
+    """The small public helpers around the entry points, against the model (`api.glue`) and against each other:
+    JSONPathQuery.singular_query() / empty(), ==/hash() of compiled queries (exercised only), repr() of nodes,
+    str() of nodelists, JSONPathNodeList views on empty results."""
+    import jsonpath_rfc9535 as jp
+
+    env = jp.JSONPathEnvironment()
+    eenv = real.enc_env(dict(real.DEFAULT_ENVDESC))
+    texts = ["$", "$.a", "$['a'][0]", "$[0]", "$[-1]", "$.a.b.c", "$[*]", "$.a[*]", "$..a", "$.a..b", "$[0,1]", "$['a','b']", "$[1:2]", "$[?@.a]", "$.a[?@.b == 1].c", "$[0][1]['x']",
+             "$ .a", "$[ 'a' ]", "$['a', 'a']", "$[:]", "$.a[0:1]", "$..[0]", "$.*", "$[?@]", "$.a.b[?count(@.*) > 1]"]
+    for _ in range(60 if tier != "thorough" else 1500):
+        texts.append(g.query())
+    lines, reals = [], []
+    doc = {"a": [{"b": 1, "c": 2}, {"b": 2}], "x": 1}
+    for q in texts:
+        res.evaluations += 1
+        try:
+            c1, c2 = env.compile(q), env.compile(q)
+        except jp.JSONPathError as exc:
+            reals.append(None)
+            lines.append(f"api.glue\t{eenv}\t{wire.enc_str(q)}")
+            continue
+        reals.append(f"glue singular={1 if c1.singular_query() else 0} empty={1 if c1.empty() else 0}")
+        lines.append(f"api.glue\t{eenv}\t{wire.enc_str(q)}")
+        # (JSONPathQuery defines __hash__ but no __eq__: two compilations are different objects; no property asks for more
+        # than identical BEHAVIOUR, which C14 checks — here the helpers are only exercised: they must not raise)
+        try:
+            _ = (c1 == c2, hash(c1), hash(c2), c1.segments == c2.segments, hash(c1.segments))
+        except Exception as exc:  # noqa: BLE001
+            res.violations.append({"property": "C13", "query": q, "observed": repr(exc)[:200], "expected": "a value", "what": "==/hash() of compiled queries raised"})
+        try:
+            nodes = c1.find(doc)
+            r = [repr(n) for n in nodes] + [str(nodes)]
+            if any(not isinstance(x, str) for x in r) or [n.path() for n in nodes] != nodes.paths():
+                raise AssertionError("views")
+            if len(nodes) == 0 and (nodes.values() != [] or nodes.paths() != [] or nodes.items() != [] or nodes.empty() is not True):
+                res.violations.append({"property": "C08", "query": q, "document": doc, "observed": "views of an empty nodelist", "expected": "empty lists", "what": "nodelist views"})
+        except jp.JSONPathError:
+            pass
+        except Exception as exc:  # noqa: BLE001
+            res.violations.append({"property": "C13", "query": q, "document": doc, "observed": repr(exc)[:200], "expected": "strings", "what": "repr()/str() of nodes or nodelists raised"})
+    out = model.run_batch_parallel(lines)
+    for q, rl, o in zip(texts, reals, out):
+        if rl is None:
+            if o.startswith("glue"):
+                res.mismatches.append({"op": "api.glue", "query": q, "model": o, "real": "rejected"})
+        elif o != rl:
+            res.mismatches.append({"op": "api.glue", "query": q, "model": o, "real": rl})
+    res.count("api-glue", len(texts))
 
 
 def long_invalid_history(rng, tier, res):
